@@ -453,6 +453,9 @@ func RunChild(sc *Scenario) *Result {
 					} else {
 						c.launch(n, w)
 					}
+					if w.NoWait {
+						continue
+					}
 					ids = append(ids, w.ID)
 				}
 			}
